@@ -181,7 +181,7 @@ relates the dispatch table to the implementing function (`dispatchOk`); (4) call
 to the wildcard array length, the fragment asks for the exact instance. -/
 theorem sem_preserves_types_partial (S : Sig) (P : Prog) (hS : SigClosed S) (hP : okProg S P = true) (fuel : Nat)
     {e : Expr} {ρ : Env} {w : World} {Γ : TyEnv} {K : Know} {θ : Subst} {v : Val} {w' : World}
-    (hfrag : okE S P Γ K e = true) (hwt : wt S Γ e = true) (hρ : ET S P θ ρ Γ) (hK : KOk K ρ)
+    (hfrag : okE S P false Γ K e = true) (hwt : wt S Γ e = true) (hρ : ET S P θ ρ Γ) (hK : KOk K ρ)
     (hev : eval fuel P ρ w e = .ok v w') : VT S P v (substTy θ (getTy e)) := by
   simp only [wt, List.isEmpty_iff] at hwt
   exact (sound_all hS hP fuel).expr hfrag hwt hρ hK hev
@@ -203,7 +203,7 @@ the row of the STATIC key, the one `Model/Mono.lean` names (`traitImplFnName tr 
 theorem traitcall_static_dispatch (S : Sig) (P : Prog) (hS : SigClosed S) (hP : okProg S P = true) (fuel : Nat)
     {recv : Expr} {args : List Expr} {tr m : String} {ty : Ty} {ρ : Env} {w w1 : World} {Γ : TyEnv} {K : Know}
     {θ : Subst} {rv : Val}
-    (hfrag : okE S P Γ K recv = true) (hwt : wt S Γ recv = true) (hρ : ET S P θ ρ Γ) (hK : KOk K ρ)
+    (hfrag : okE S P false Γ K recv = true) (hwt : wt S Γ recv = true) (hρ : ET S P θ ρ Γ) (hK : KOk K ρ)
     (hc : concreteTy (substTy θ (getTy recv)) = true) (hev : eval fuel P ρ w recv = .ok rv w1) :
     valKey rv = tyKey (substTy θ (getTy recv)) ∧
     eval (fuel + 1) P ρ w (.traitCall tr m ty recv args) =
@@ -270,7 +270,7 @@ def tsS : Sig := { tsSig with fns := tsProg.fns }
 
 example : okProg tsS tsProg = true := by decide +kernel
 -- closures and function values: `let k = 3; let add = |x: int32| x + k; let f = ident; add(f(4))`
-example : okE tsS tsProg [] []
+example : okE tsS tsProg false [] []
     (.letE "k" (.prim (.int 32 true 3))
       (.letE "add" (.closure (.func [.int 32 true] (.int 32 true)) [("x", .int 32 true)]
           (.bin .add (.int 32 true) (.var "x" (.int 32 true)) (.var "k" (.int 32 true))))
@@ -284,13 +284,13 @@ example : implsOk tsS tsProg = true := by decide +kernel
 -- the dispatch-table check refuses a row whose function has another receiver type than its key says
 example : implsOk tsS { tsProg with impls := [("A", "int32", "foo", "trait_impl#A#S#foo")] } = false := by decide +kernel
 -- what the fragment refuses: the field read outside the arm that established the variant
-example : okE tsS tsProg [("o", .app (.enum "Opt") [.int 32 true])] []
+example : okE tsS tsProg false [("o", .app (.enum "Opt") [.int 32 true])] []
     (.cget (.enum "Opt" "Some" 1) 0 (.int 32 true) (.var "o" (.app (.enum "Opt") [.int 32 true]))) = false := by decide +kernel
 -- ... which `Wt` accepts although `Sem` would read a field of `None`
 example : wt tsS [("o", .app (.enum "Opt") [.int 32 true])]
     (.cget (.enum "Opt" "Some" 1) 0 (.int 32 true) (.var "o" (.app (.enum "Opt") [.int 32 true]))) = true := by decide +kernel
 -- arrays and vectors: `let a = [1, 2]; let v = vec_push(vec_new(), array_get(a, 0)); vec_len(v)`
-example : okE tsS tsProg [] []
+example : okE tsS tsProg false [] []
     (.letE "a" (.array (.array 2 (.int 32 true)) [.prim (.int 32 true 1), .prim (.int 32 true 2)])
       (.letE "v" (.call (.vec (.int 32 true)) (.var "vec_push" (.func [.vec (.int 32 true), .int 32 true] (.vec (.int 32 true))))
           [.call (.vec (.int 32 true)) (.var "vec_new" (.func [] (.vec (.int 32 true)))) [],
